@@ -28,11 +28,11 @@
 open Tcmodel
 open Conv
 
-type ctx = { fn : int; lam : bool; loop : bool; cond : bool; catch : bool; arg : bool; blk : int }
-let ctx0 = { fn = 0; lam = false; loop = false; cond = false; catch = false; arg = false; blk = 0 }
+type ctx = { fn : int; nf : int; lam : bool; loop : bool; cond : bool; catch : bool; arg : bool; blk : int }
+let ctx0 = { fn = 0; nf = 0; lam = false; loop = false; cond = false; catch = false; arg = false; blk = 0 }
 
 let ctx_label c =
-  let l = (if c.fn >= 2 then ["nested"] else []) @ (if c.lam then ["lambda"] else [])
+  let l = (if c.nf >= 1 then ["nested"] else []) @ (if c.lam then ["lambda"] else [])
           @ (if c.catch then ["catch"] else []) @ (if c.loop then ["loop"] else [])
           @ (if c.cond then ["cond"] else []) @ (if c.arg then ["arg"] else [])
           @ (if c.blk >= 1 then ["block"] else []) in
@@ -137,7 +137,7 @@ let all_candidates (st : Tgen.st) (prog : program) : cand list =
        sub i (fun x -> EFor (x, cc, s, body)); sub cc (fun x -> EFor (i, x, s, body));
        sub s (fun x -> EFor (i, cc, x, body)); sub ~c:{ c with loop = true } body (fun x -> EFor (i, cc, s, x))
      | ELambda fd ->
-       mfdef { ctx0 with fn = c.fn + 1; lam = true; catch = c.catch } env ~named:false fd (fun fd' -> k (ELambda fd'))
+       mfdef { ctx0 with fn = c.fn + 1; nf = c.nf; lam = true; catch = c.catch } env ~named:false fd (fun fd' -> k (ELambda fd'))
      | EArrLit (es, t) ->
        List.iteri (fun i _ -> lit_each "ArrayElemKind" (fun l -> EArrLit (replace_nth es i l, t))) es;
        List.iteri (fun i a -> sub a (fun x -> EArrLit (replace_nth es i x, t))) es
@@ -193,7 +193,7 @@ let all_candidates (st : Tgen.st) (prog : program) : cand list =
            go (it :: pre) ((int_of_n x, KOther) :: env) tl
          | IFunc fd ->
            let env' = (int_of_n (fd_name fd), KOther) :: env in
-           mfdef { ctx0 with fn = c.fn + 1; catch = c.catch; lam = c.lam } env' ~named:true fd (fun fd' -> put (IFunc fd'));
+           mfdef { ctx0 with fn = c.fn + 1; nf = c.nf + 1; catch = c.catch; lam = c.lam } env' ~named:true fd (fun fd' -> put (IFunc fd'));
            go (it :: pre) env' tl
          | IExpr e ->
            mexpr c env e (fun e' -> put (IExpr e'));
